@@ -40,15 +40,16 @@ type Path struct {
 	entry   map[string]Value // entry values of params by contract name
 	inOld   bool
 	ghostGen int
+	now     string // allocation clock: every reference obtained so far was born before `now`
 }
 
 func NewPath() *Path {
-	return &Path{vars: map[types.Object]Value{}, names: map[string]Value{}, heap: map[string]string{}, entry: map[string]Value{}}
+	return &Path{vars: map[types.Object]Value{}, names: map[string]Value{}, heap: map[string]string{}, entry: map[string]Value{}, now: "0"}
 }
 
 func (p *Path) Clone() *Path {
 	q := &Path{vars: make(map[types.Object]Value, len(p.vars)), names: make(map[string]Value, len(p.names)),
-		heap: make(map[string]string, len(p.heap)), heapGen: p.heapGen, oldHeap: p.oldHeap, oldGen: p.oldGen, entry: p.entry, inOld: p.inOld, ghostGen: p.ghostGen}
+		heap: make(map[string]string, len(p.heap)), heapGen: p.heapGen, oldHeap: p.oldHeap, oldGen: p.oldGen, entry: p.entry, inOld: p.inOld, ghostGen: p.ghostGen, now: p.now}
 	for k, v := range p.vars {
 		q.vars[k] = v
 	}
@@ -142,6 +143,8 @@ type Exec struct {
 	skipped       map[string]bool
 	inEvent       bool
 	axiomSkipped  map[string]int
+	lastFieldWrites   []string
+	lastUnknownWrites bool
 }
 
 func NewExec(w *World, c *Ctx) *Exec {
@@ -173,12 +176,7 @@ func (ex *Exec) addObl(p *Path, name, kind, text, goal string, pos token.Pos, no
 // heap
 
 func heapKeyOf(named *types.Named, field string) string {
-	o := named.Obj()
-	pk := ""
-	if o.Pkg() != nil {
-		pk = o.Pkg().Name()
-	}
-	return pk + "." + o.Name() + "." + field
+	return structKey(named, nil) + "." + field
 }
 
 func (ex *Exec) isMutableKey(key string) bool {
@@ -231,6 +229,9 @@ func (ex *Exec) heapRead(p *Path, key string, ft types.Type, ref string) Value {
 	if inv := ex.c.typeInvariant(v); inv != "true" && ex.quantFacts == nil {
 		ex.assumeFact(p, inv)
 	}
+	if fs == "Ref" && !p.inOld {
+		ex.bornBefore(p, v.T)
+	}
 	return v
 }
 
@@ -250,6 +251,34 @@ func (ex *Exec) havocMutableHeap(p *Path) {
 	p.heapGen = fmt.Sprintf("g%d", ex.c.fresh)
 }
 
+// havocLoopHeap forgets what a loop body may write: only the assigned fields when every heap write of the
+// body is a direct field assignment, the whole mutable heap otherwise.
+func (ex *Exec) havocLoopHeap(p *Path, fieldKeys []string, unknown bool) {
+	if unknown || len(fieldKeys) == 0 {
+		ex.havocMutableHeap(p)
+		return
+	}
+	for _, k := range fieldKeys {
+		if t, ok := p.heap[k]; ok {
+			if s := ex.sortOfHeapTerm(t); s != "" {
+				p.heap[k] = ex.c.Fresh("H:"+k, s)
+				continue
+			}
+		}
+		// not materialised on this path: find the sort from the declared base array
+		name := "H:" + k
+		if ex.isMutableKey(k) && p.heapGen != "" {
+			name += "@" + p.heapGen
+		}
+		if s, ok := ex.c.funSeen[quote(name)]; ok {
+			p.heap[k] = ex.c.Fresh("H:"+k, s)
+		} else {
+			ex.havocMutableHeap(p)
+			return
+		}
+	}
+}
+
 // assumeFact adds a universally valid fact; inside a quantifier body it is collected for the binder.
 func (ex *Exec) assumeFact(p *Path, f string) {
 	if f == "true" {
@@ -265,6 +294,13 @@ func (ex *Exec) assumeFact(p *Path, f string) {
 	p.Assume(f)
 }
 
+func (ex *Exec) birthFun() string {
+	f := ex.c.Fun("birth", []string{"Ref"}, "Int")
+	ex.c.Axiom("birth.null", "(= ("+f+" null) (- 1))")
+	return f
+}
+
+// alloc returns a fresh reference: born now, hence different from every reference obtained before.
 func (ex *Exec) alloc(p *Path, hint string) string {
 	r := ex.c.Fresh("new:"+hint, "Ref")
 	p.Assume("(not (= " + r + " null))")
@@ -272,7 +308,24 @@ func (ex *Exec) alloc(p *Path, hint string) string {
 		p.Assume("(not (= " + r + " " + a + "))")
 	}
 	p.allocs = append(p.allocs, r)
+	p.Assume("(= (" + ex.birthFun() + " " + r + ") " + p.now + ")")
+	p.now = "(+ " + p.now + " 1)"
 	return r
+}
+
+// bornBefore records that a reference value read from the state existed before the current moment.
+func (ex *Exec) bornBefore(p *Path, ref string) {
+	if ref == "null" {
+		return
+	}
+	ex.assumeFact(p, "(< ("+ex.birthFun()+" "+ref+") "+p.now+")")
+}
+
+// advanceClock: an unknown amount of allocation may have happened (call, loop iterations).
+func (ex *Exec) advanceClock(p *Path) {
+	n := ex.c.Fresh("now", "Int")
+	p.Assume("(>= " + n + " " + p.now + ")")
+	p.now = n
 }
 
 // ---------------------------------------------------------------------------------------
@@ -359,6 +412,12 @@ func (ex *Exec) tryMerge(a, b *Path) *Path {
 	m := a.Clone()
 	m.pc = append([]string(nil), a.pc[:n]...)
 	m.pc = append(m.pc, or(ca, cb))
+	if len(ca) > 48 {
+		// name the branch condition: it is embedded in every ite of the merged state
+		g := ex.c.Fresh("br", "Bool")
+		m.pc = append(m.pc, "(= "+g+" "+ca+")")
+		ca = g
+	}
 	// variables
 	for k, va := range a.vars {
 		vb, ok := b.vars[k]
@@ -403,6 +462,9 @@ func (ex *Exec) tryMerge(a, b *Path) *Path {
 		// one side still has the base array; we need its sort: recover from the other term is not
 		// possible syntactically, so refuse to merge.
 		return nil
+	}
+	if a.now != b.now {
+		m.now = ite(ca, a.now, b.now)
 	}
 	// allocs: union
 	seen := map[string]bool{}
@@ -908,6 +970,8 @@ func (ex *Exec) execReturn(p *Path, st *ast.ReturnStmt) []outcome {
 func (ex *Exec) assignedIn(body ast.Node) (vars []types.Object, heapWrite bool) {
 	seen := map[types.Object]bool{}
 	declared := map[types.Object]bool{}
+	ex.lastFieldWrites = nil
+	ex.lastUnknownWrites = false
 	ast.Inspect(body, func(n ast.Node) bool {
 		switch s := n.(type) {
 		case *ast.AssignStmt:
@@ -924,8 +988,13 @@ func (ex *Exec) assignedIn(body ast.Node) (vars []types.Object, heapWrite bool) 
 					case *ast.SelectorExpr:
 						// field write: through pointer => heap; on struct value => var
 						if t := ex.info.TypeOf(r.X); t != nil {
-							if _, isPtr := t.Underlying().(*types.Pointer); isPtr {
+							if pt, isPtr := t.Underlying().(*types.Pointer); isPtr {
 								heapWrite = true
+								if named, ok := types.Unalias(pt.Elem()).(*types.Named); ok {
+									ex.lastFieldWrites = append(ex.lastFieldWrites, ex.heapKey(named, r.Sel.Name))
+								} else {
+									ex.lastUnknownWrites = true
+								}
 								root = nil
 							} else {
 								root = r.X
@@ -936,6 +1005,7 @@ func (ex *Exec) assignedIn(body ast.Node) (vars []types.Object, heapWrite bool) 
 						}
 					case *ast.StarExpr:
 						heapWrite = true
+						ex.lastUnknownWrites = true
 						root = nil
 					}
 					break
@@ -950,6 +1020,7 @@ func (ex *Exec) assignedIn(body ast.Node) (vars []types.Object, heapWrite bool) 
 					if obj := ex.info.Uses[id]; obj != nil && !seen[obj] {
 						if vr, ok := obj.(*types.Var); ok && vr.Pkg() != nil && vr.Parent() == vr.Pkg().Scope() {
 							heapWrite = true
+							ex.lastUnknownWrites = true
 							continue
 						}
 						seen[obj] = true
@@ -968,6 +1039,7 @@ func (ex *Exec) assignedIn(body ast.Node) (vars []types.Object, heapWrite bool) 
 			// any call may write the mutable heap unless it is a known pure one
 			if !ex.callIsHeapPure(s) {
 				heapWrite = true
+				ex.lastUnknownWrites = true
 			}
 		case *ast.RangeStmt:
 			if s.Tok == token.ASSIGN {
@@ -1128,6 +1200,7 @@ func (ex *Exec) execRange(p *Path, st *ast.RangeStmt) []outcome {
 	coll := ex.eval(p, st.X)
 	invs := ex.loopClauses(ord)
 	modVars, heapW := ex.assignedIn(st.Body)
+	fieldWrites, unknownWrites := ex.lastFieldWrites, ex.lastUnknownWrites
 	// loop variables declared by the range statement
 	var keyObj, valObj types.Object
 	if id, ok := st.Key.(*ast.Ident); ok && id.Name != "_" {
@@ -1176,8 +1249,9 @@ func (ex *Exec) execRange(p *Path, st *ast.RangeStmt) []outcome {
 		// arbitrary iteration
 		it := p.Clone()
 		ex.havocVars(it, modVars)
+		ex.advanceClock(it)
 		if heapW {
-			ex.havocMutableHeap(it)
+			ex.havocLoopHeap(it, fieldWrites, unknownWrites)
 			if ex.traceEvents {
 				ex.havocGhostBody(it, st.Body)
 			}
@@ -1243,8 +1317,9 @@ func (ex *Exec) execRange(p *Path, st *ast.RangeStmt) []outcome {
 		var outs []outcome
 		it := p.Clone()
 		ex.havocVars(it, modVars)
+		ex.advanceClock(it)
 		if heapW {
-			ex.havocMutableHeap(it)
+			ex.havocLoopHeap(it, fieldWrites, unknownWrites)
 			if ex.traceEvents {
 				ex.havocGhostBody(it, st.Body)
 			}
@@ -1307,6 +1382,7 @@ func (ex *Exec) execFor(p *Path, st *ast.ForStmt) []outcome {
 	body := &ast.BlockStmt{List: st.Body.List}
 	var nodes ast.Node = body
 	modVars, heapW := ex.assignedIn(nodes)
+	fieldWrites, unknownWrites := ex.lastFieldWrites, ex.lastUnknownWrites
 	if st.Post != nil {
 		mv2, hw2 := ex.assignedIn(st.Post)
 		for _, v := range mv2 {
@@ -1321,13 +1397,16 @@ func (ex *Exec) execFor(p *Path, st *ast.ForStmt) []outcome {
 			}
 		}
 		heapW = heapW || hw2
+		fieldWrites = append(fieldWrites, ex.lastFieldWrites...)
+		unknownWrites = unknownWrites || ex.lastUnknownWrites
 	}
 	ex.checkInvariants(p, invs, ord, "init", st.Pos())
 	var outs []outcome
 	it := p.Clone()
 	ex.havocVars(it, modVars)
+	ex.advanceClock(it)
 	if heapW {
-		ex.havocMutableHeap(it)
+		ex.havocLoopHeap(it, fieldWrites, unknownWrites)
 		if ex.traceEvents {
 			ex.havocGhostBody(it, st.Body)
 		}
